@@ -13,8 +13,10 @@ import random
 
 ID = "C10"
 DRIVER = "drv_c10"
-LEAN_TARGETS = ["PharmpyProofs.C10.Properties", "PharmpyProofs.C10.UnusedProperties", "drv_c10"]
-PROPERTIES = ["PharmpyProofs/C10/Properties.lean", "PharmpyProofs/C10/UnusedProperties.lean"]
+LEAN_TARGETS = ["PharmpyProofs.C10.Properties", "PharmpyProofs.C10.UnusedProperties",
+                "PharmpyProofs.C10.DepGraphProperties", "drv_c10"]
+PROPERTIES = ["PharmpyProofs/C10/Properties.lean", "PharmpyProofs/C10/UnusedProperties.lean",
+              "PharmpyProofs/C10/DepGraphProperties.lean"]
 LEAN_SOURCES = ["PharmpyModel/Core/*.lean", "PharmpyModel/C10/*.lean", "PharmpyProofs/C10/*.lean", "Drivers/C10.lean"]
 TIME_LIMIT = {"quick": 900, "thorough": 3000}
 CASE_CPU_LIMIT = 30
@@ -22,7 +24,11 @@ RULE = ("straight-line programs over targets A,B,C,D,G,Y and leaves P,R,U,W (len
         "values, read-before-definition, piecewise, optional compartmental system); every query "
         "(dependencies, full_expression, find_assignment_index, direct_dependencies for every symbol/statement; "
         "seeded remove_symbol_definitions, reassign and subs calls); thorough adds ALL programs of length <= 3 over 3 symbols "
-        "and a 7-entry right-hand-side menu (9 723 programs). non-trivial = at least 2 statements and at least one "
+        "and a 7-entry right-hand-side menu (9 723 programs). 15% of the cases are `unused` cases (c10_unused.py), 20% are "
+        "`mdeps` cases (c10_mdeps.py): generic models (thetas, an iiv and an iov eta, two data columns) whose statements are "
+        "chains s0=f(inputs); s1=f(s0); ..; sk=f(s(k-1)) followed by reassignments of the links (2-4 links, nearest link "
+        "first / shuffled / self-referencing), single-assignment programs or random reassigning programs; depends_on for every "
+        "assigned symbol x input and has_random_effect for every assigned symbol x level. non-trivial = at least 2 statements and at least one "
         "statement reading another; distinct = distinct case JSON")
 TRUSTED = [
     "Lean 4.33 kernel; axioms propext, Quot.sound, Classical.choice only (audited per theorem each run)",
@@ -100,10 +106,14 @@ def gen_prog(rng: random.Random, ssa: bool, with_ode: bool):
 
 def gen_cases(rng: random.Random, n: int, tier: str):
     from harness.corr.c10_unused import gen_unused
+    from harness.corr.c10_mdeps import gen_mdeps
     out = []
     for _ in range(n):
         if rng.random() < 0.15:
             out.append(gen_unused(rng))
+            continue
+        if rng.random() < 0.2:
+            out.append(gen_mdeps(rng))
             continue
         r = rng.random()
         ssa = r < 0.3
@@ -159,13 +169,18 @@ def corpus_cases():
         {"kind": "prog", "ssa": False, "stmts": [A("A", "P"), A("B", "A + P"), ["ode", {"rates": ["A", "B", "R"], "two": True}],
                                                   A("Y", "A_CENTRAL(t) / B")],
          "rm": [[["A"], 3], [["B"], 3]], "reassign": ["B", "A"], "seed": 4},
-    ] + __import__("harness.corr.c10_unused", fromlist=["corpus_unused"]).corpus_unused()
+    ] + __import__("harness.corr.c10_unused", fromlist=["corpus_unused"]).corpus_unused() \
+        + __import__("harness.corr.c10_mdeps", fromlist=["corpus_mdeps"]).corpus_mdeps()
 
 
 def shrink(case):
     if case.get("kind") == "unused":
         from harness.corr.c10_unused import shrink_unused
         yield from shrink_unused(case)
+        return
+    if case.get("kind") == "mdeps":
+        from harness.corr.c10_mdeps import shrink_mdeps
+        yield from shrink_mdeps(case)
         return
     st = case["stmts"]
     for i in range(len(st)):
@@ -293,6 +308,9 @@ def run_case(case, drv):
     if case.get("kind") == "unused":
         from harness.corr.c10_unused import run_unused
         return run_unused(case, drv)
+    if case.get("kind") == "mdeps":
+        from harness.corr.c10_mdeps import run_mdeps
+        return run_mdeps(case, drv)
     rng = random.Random(case["seed"])
     k, mon, tags = [], [], []
     ss = build(case)
